@@ -61,6 +61,7 @@ type vC12Net struct {
 	answer  vC12Answer
 	bindErr error
 	rec     *vC12Rec
+	dead    string // a loopback endpoint nothing listens on: sends to it fail at once (ECONNREFUSED)
 }
 
 // vC12Rec is the step-by-step observer: while [on], every upstream packet arrival and every
@@ -276,6 +277,17 @@ func vC12Glue(id int) net.IP {
 	return net.IPv4(198, 51, 100, byte(10+id))
 }
 
+// addresses of servers that no longer exist (mapped to an endpoint nothing listens on)
+func vC12Dead(k int) net.IP {
+	for _, base := range [][3]byte{{198, 51, 100}, {203, 0, 113}, {192, 0, 2}} {
+		ip := net.IPv4(base[0], base[1], base[2], byte(200+k))
+		if !isLocalIP(ip) {
+			return ip
+		}
+	}
+	return net.IPv4(198, 51, 100, byte(200+k))
+}
+
 // additional addresses of server 1 (several endpoints, one socket)
 func vC12Extra(k int) net.IP {
 	for _, base := range [][3]byte{{203, 0, 113}, {192, 0, 2}, {198, 51, 100}} {
@@ -311,6 +323,11 @@ func (n *vC12Net) handler(id int, tcp bool) dns.Handler {
 }
 
 func (n *vC12Net) start(count int) {
+	// reserve an endpoint, then free it again: the addresses vC12Dead names are mapped to it
+	if pc, err := net.ListenPacket("udp", "127.0.0.1:0"); err == nil {
+		n.dead = pc.LocalAddr().String()
+		pc.Close()
+	}
 	for id := 0; id < count; id++ {
 		var pc net.PacketConn
 		var ln net.Listener
@@ -365,6 +382,10 @@ func (n *vC12Net) mapper() func(string) string {
 		if ip := net.ParseIP(host).To4(); ip != nil && ip[3] >= 100 && ip[3] < 140 && len(n.srvs) > 1 {
 			return n.srvs[1].addr
 		}
+		// addresses of servers that have gone away
+		if ip := net.ParseIP(host).To4(); ip != nil && ip[3] >= 200 && ip[3] < 240 && n.dead != "" {
+			return n.dead
+		}
 		return addr
 	}
 }
@@ -413,6 +434,8 @@ type vC12Topo struct {
 	servers     int
 	qname       string
 	answer      vC12Answer
+	par         bool               // sub-runs of one tree run beside each other (no stack discipline in the event log)
+	prepare     func(rig *vC12Rig) // history of the resolver before the observed client query (nil: none)
 }
 
 const (
@@ -424,6 +447,7 @@ const (
 	vC12FamLame
 	vC12FamTrunc
 	vC12FamLate
+	vC12FamRehome
 )
 
 // ever-deeper referrals: server i is authoritative for the zone made of the last i labels
@@ -702,6 +726,74 @@ func vC12LateTail(zl, empty, ql, tail int) vC12Topo {
 }
 
 // many zones z<i>. behind ONE authority address: the root refers each to ns.z<i>. with the same glue
+// a zone that moved: rz.mv. (checkHosts leaves single-label zones alone) is delegated to ns0.rz.mv. (glue: an address nothing answers on any more) and to h out-of-zone
+// nameserver names n<k>.rh. without glue. History before the observed query ([prepare]): the names n<k>.rh. still
+// resolved to dead addresses when the delegation was learnt, and clients have kept failing on rz. — four times "every
+// server of the zone failed"; since then the addresses the resolver and its cache held for n<k>.rh. have expired (the
+// operator's purge entry point stands in for the TTL), the failure-cache entry of the zone too, n<k>.rh. now resolve
+// to the live server and other clients have asked for them (the answer cache holds the new addresses). The observed query is the fifth failure: Resolver.checkHosts re-resolves all h names IN PARALLEL
+// through the Queryer, ignores each lookup's error, and retries with what it found.
+func vC12Rehome(h int) vC12Topo {
+	phase := new(atomic.Int32)
+	return vC12Topo{fam: vC12FamRehome, p1: h, name: "rehome", servers: 3, qname: "www.rz.mv.", par: true,
+		answer: func(srv int, q dns.Question, tcp bool) *dns.Msg {
+			lower := strings.ToLower(q.Name)
+			switch srv {
+			case 0:
+				if vC12Sub("rz.mv.", lower) {
+					m := &dns.Msg{Ns: []dns.RR{vC12NS("rz.mv.", "ns0.rz.mv.")}, Extra: []dns.RR{vC12A("ns0.rz.mv.", vC12Dead(0))}}
+					for k := 0; k < h; k++ {
+						m.Ns = append(m.Ns, vC12NS("rz.mv.", fmt.Sprintf("n%d.rh.", k)))
+					}
+					return m
+				}
+				if vC12Sub("rh.", lower) {
+					return vC12Referral("rh.", 2)
+				}
+				return vC12Neg(".", dns.RcodeNameError)
+			case 1:
+				if lower == "www.rz.mv." && q.Qtype == dns.TypeA {
+					return vC12Auth(vC12A(q.Name, net.IPv4(203, 0, 113, 21)))
+				}
+				return vC12Neg("rz.mv.", dns.RcodeSuccess)
+			default:
+				var k int
+				if _, err := fmt.Sscanf(lower, "n%d.rh.", &k); err != nil || q.Qtype != dns.TypeA || k < 0 || k >= h {
+					return vC12Neg("rh.", dns.RcodeSuccess)
+				}
+				if phase.Load() < 2 {
+					return vC12Auth(vC12A(q.Name, vC12Dead(1+k)))
+				}
+				return vC12Auth(vC12A(q.Name, vC12Glue(1)))
+			}
+		},
+		prepare: func(rig *vC12Rig) {
+			phase.Store(1)
+			ample := middleware.MustRecursionWorkPolicyFromConfig(config.RecursionFirewallConfig{Mode: config.RecursionFirewallModeShadow})
+			rig.queryWith("w0.rz.mv.", false, middleware.NewRecursionWorkLedger(ample))
+			phase.Store(2)
+			for k := 0; k < h; k++ {
+				// the cached address of the name has expired; another client has asked for it since, so the answer cache
+				// holds the new one (the resolver's own nameserver-address cache and the delegation still hold the old)
+				q := dns.Question{Name: fmt.Sprintf("n%d.rh.", k), Qtype: dns.TypeA, Qclass: dns.ClassINET}
+				rig.cm.Purge(q)
+				rig.queryWith(q.Name, false, middleware.NewRecursionWorkLedger(ample))
+			}
+			zq := dns.Question{Name: "rz.mv.", Qtype: dns.TypeNS, Qclass: dns.ClassINET}
+			if fs, ok := rig.cm.Store().(middleware.ResolutionFailureStore); ok {
+				fs.ClearZoneFailure(zq, "rz.mv.")
+			}
+			rig.cm.Purge(dns.Question{Name: "w0.rz.mv.", Qtype: dns.TypeA, Qclass: dns.ClassINET})
+			// the delegation is filed under the CD bit the resolver gave the upstream request (DNSSEC off: CD=1)
+			for _, cd := range []bool{false, true} {
+				if d, err := rig.res.delegations.Get(internalcache.Key(zq, cd)); err == nil && d.Servers != nil {
+					atomic.StoreUint32(&d.Servers.ErrorCount, 4)
+					rig.prepared = true
+				}
+			}
+		}}
+}
+
 func vC12Shared() vC12Topo {
 	return vC12Topo{fam: 9, name: "shared-authority", servers: 2, qname: "www.z0.",
 		answer: func(srv int, q dns.Question, tcp bool) *dns.Msg {
@@ -784,6 +876,9 @@ func vC12RandTopo(r *rand.Rand, finite bool) vC12Topo {
 	case 6:
 		return vC12Lame(1+r.Intn(6), r.Intn(4))
 	case 7:
+		if r.Intn(2) == 0 {
+			return vC12Rehome(1 + r.Intn(4))
+		}
 		return vC12Trunc(r.Intn(4))
 	default:
 		return vC12Cname(1+r.Intn(12), false)
@@ -828,6 +923,9 @@ type vC12Rig struct {
 	pipe   *middleware.Pipeline
 	policy middleware.RecursionWorkPolicy
 	rec    *vC12Rec
+	res    *Resolver
+	cm     *cachemw.Cache
+	prepared bool // the topology's history was established (topologies without one: true)
 }
 
 // traced runs one client query on its own ledger and returns the event sequence of its request tree
@@ -982,7 +1080,15 @@ func vC12NewRig(topo vC12Topo, mode int, maxOut, maxInt uint32, qmin bool) (*vC1
 	h.SetStore(cm.Store())
 	cm.SetQueryer(q)
 	cm.SetPrefetchQueryer(middleware.NewPipelineQueryer(p.SubPipeline("cache")))
-	return &vC12Rig{v6: topo.v6, net: n, probe: probe, pipe: p, policy: policy, rec: rec}, nil
+	rig := &vC12Rig{v6: topo.v6, net: n, probe: probe, pipe: p, policy: policy, rec: rec, res: r, cm: cm, prepared: topo.prepare == nil}
+	if topo.prepare != nil {
+		topo.prepare(rig)
+		if !rig.prepared {
+			n.stop()
+			return nil, errors.New("history of the topology could not be established")
+		}
+	}
+	return rig, nil
 }
 
 type vC12Reply struct {
@@ -1155,6 +1261,7 @@ func TestVerifC12Lab(t *testing.T) {
 		vC12NSFan(20, 0), vC12NSFan(33, 0), vC12NSFan(12, 2), vC12NSCycle(1), vC12NSCycle(3),
 		vC12Lame(4, 0), vC12Lame(4, 2), vC12Trunc(3),
 		vC12Late(2, 3, 4), vC12Late(1, 3, 5), vC12Late(2, 2, 4),
+		vC12Rehome(2),
 	}
 	if os.Getenv("VERIF_TIER") == "thorough" {
 		for _, k := range []int{1, 5, 9} {
@@ -1186,6 +1293,8 @@ func TestVerifC12Lab(t *testing.T) {
 		// the budget ends inside the walk that follows the restart: in its root query, at the zone, in the tail
 		{vC12LateTail(1, 3, 6, 3), 5, 4, true}, {vC12LateTail(1, 3, 6, 3), 6, 4, true}, {vC12LateTail(1, 3, 6, 3), 8, 4, true},
 		{vC12LateTail(2, 4, 6, 2), 6, 4, true}, {vC12LateTail(2, 4, 6, 2), 7, 4, true}, {vC12LateTail(1, 2, 5, 3), 4, 4, true},
+		// the internal budget ends among the parallel nameserver lookups of checkHosts (whose errors it ignores), or just holds
+		{vC12Rehome(2), 128, 1, false}, {vC12Rehome(3), 128, 2, true}, {vC12Rehome(4), 64, 1, false}, {vC12Rehome(2), 128, 2, false},
 	} {
 		fixed[len(boundary)] = vC12Fixed{f.maxOut, f.maxInt, f.qmin}
 		boundary = append(boundary, f.t)
@@ -1193,6 +1302,9 @@ func TestVerifC12Lab(t *testing.T) {
 	// one more client query on a fresh resolver, observed step by step
 	buildTrace := func(name string, v6 bool, mode int, maxOut, maxInt uint32, rep vC12Reply, evs, pairs, gens []string, alien int, desc map[string]any) map[string]any {
 		tree := !v6 // detached IPv6 walks run beside each other: no stack discipline, the (parent, child) pairs are still checked
+		if par, _ := desc["parallel_subruns"].(bool); par {
+			tree = false // checkHosts' parallel nameserver lookups: the same
+		}
 		if len(evs) > 600 {
 			evs, tree = evs[:600], false
 		}
@@ -1285,7 +1397,7 @@ func TestVerifC12Lab(t *testing.T) {
 		rep, evs, pairs, gens, alien := rig.traced(topo.qname, edns)
 		rig.net.stop()
 		emitTrace(topo.name, topo.v6, mode, maxOut, maxInt, rep, evs, pairs, gens, alien,
-			map[string]any{"topology": topo.name, "p1": topo.p1, "p2": topo.p2, "qname": topo.qname, "qmin": qmin, "edns": edns})
+			map[string]any{"topology": topo.name, "p1": topo.p1, "p2": topo.p2, "qname": topo.qname, "qmin": qmin, "edns": edns, "parallel_subruns": topo.par})
 	}
 	// DNSSEC on: the signed namespace; the validating resolver's DS / DNSKEY fetches are direct sub-resolutions that
 	// debit the internal budget without passing the probe
